@@ -394,8 +394,8 @@ def ML.setMediaText (m : ML) (raising fromText : Bool) (toks : List Tok) : ML ×
     if raising then (m, .raised .syntaxErr) else ({ m with wellformed := false }, .ret ())
   | .ok items =>
     if (queries items).isEmpty then
-      -- "MediaQuery: No content.": `_wellformed = False` is assigned before the error call
-      ({ m with wellformed := false }, if raising then .raised .syntaxErr else .ret ())
+      -- "MediaQuery: No content." (`medialist.py:121-127`): the error call comes before `_wellformed = ok`
+      if raising then (m, .raised .syntaxErr) else ({ m with wellformed := false }, .ret ())
     else ({ seq := canon items, wellformed := true }, .ret ())
 
 /-- a new medium given as text: `none` = the empty string (`MediaQuery('')` parses nothing) -/
